@@ -169,6 +169,17 @@ class Model:
         self.assembled_merges = [list(m) for m in self.merges]
         self.stale_reasons = set()
 
+    def _commit_pending(self) -> None:
+        for (nn, cc), to in self.pending.items():
+            if nn in self.shapes:
+                # a named point of a multi-operation entity (its centre / radius point)
+                sh = self.shapes[nn]
+                sh["moves"].append({"pos": list(sh["points"][cc]), "to": list(to)})
+                sh["points"][cc] = list(to)
+            else:
+                self.pos[nn][cc] = list(to)
+        self.pending = {}
+
     def _clear(self) -> None:
         self.assembled = False
         self.assembled_ops = []
@@ -198,6 +209,10 @@ class Model:
         for n in self.added:
             if n in self.shapes:
                 ops += [dict(x) for x in self.shapes[n]["ops"]]
+                if self.shapes[n]["moves"]:
+                    # the entity as it stands after its committed vertex moves: taken through a
+                    # scratch mesh of its own (assemble, move, backport), then used in a new mesh
+                    ops.append({"op": "settle", "target": n, "moves": [dict(mv) for mv in self.shapes[n]["moves"]]})
                 continue
             r = self.recipes[n]
             ops.append({"op": "hex", "name": n, "corners": [list(p) for p in self.pos[n]], "edges": list(r["edges"])})
@@ -227,7 +242,8 @@ class Model:
         if getattr(self, "crashed_backport", False) and op != "backport":
             raise IllFormed("after a backport interrupted in its first phase the only recovery is to backport again")
         if op == "shape":
-            self.shapes[st["name"]] = {"ops": [st], "n_ops": st["n_ops"], "patch_names": set()}
+            self.shapes[st["name"]] = {"ops": [st], "n_ops": st["n_ops"], "patch_names": set(), "moves": [],
+                                       "points": {k: list(v) for k, v in (st.get("named_points") or {}).items()}}
         elif op in ("shape_chop", "shape_patch"):
             self.shapes[st["target"]]["ops"].append(st)
             if op == "shape_patch":
@@ -308,9 +324,7 @@ class Model:
                 self.crashed_backport = True
             else:
                 ann["phase"] = 2
-                for (nn, cc), to in self.pending.items():
-                    self.pos[nn][cc] = list(to)
-                self.pending = {}
+                self._commit_pending()
                 self.assembled = True
                 self.stale_reasons.add("crash")
         elif op == "clear":
@@ -329,14 +343,22 @@ class Model:
                     else:
                         self.pending[(nn, cc)] = list(st["to"])
             ann["block_index"] = self.assembled_ops.index(st["target"])
+        elif op == "move_shape_point":
+            sh = self.shapes.get(st["target"])
+            if not self.movable or sh is None or st["target"] not in self.added or st["which"] not in sh["points"] \
+                    or any(n == st["target"] for (n, _) in self.deleted_sub):
+                raise IllFormed("move_shape_point")
+            ann["at"] = list(self.pending.get((st["target"], st["which"])) or sh["points"][st["which"]])
+            if list(st["to"]) == list(sh["points"][st["which"]]):
+                self.pending.pop((st["target"], st["which"]), None)
+            else:
+                self.pending[(st["target"], st["which"])] = list(st["to"])
         elif op == "backport":
             if not self.movable:
                 raise IllFormed("backport")
             self.crashed_backport = False
             had_block = list(self.assembled_ops)
-            for (nn, cc), to in self.pending.items():
-                self.pos[nn][cc] = list(to)
-            self.pending = {}
+            self._commit_pending()
             self._clear()
             self._assemble()
             ann["expect_points"] = {n: [list(p) for p in pts] for n, pts in self.pos.items()}
@@ -463,6 +485,8 @@ def gen_history(seed: int, faults: str) -> Dict[str, Any]:
         else:
             st = {"op": "shape", "name": "s0", "kind": "hemisphere", "args": {"c": o, "r": [1.0, 40, 0], "n": [0, 0, 1]}}
         st["n_ops"] = _count_operations(st)
+        if kind in ("hemisphere", "cylinder"):
+            st["named_points"] = {"c": list(o), "r": [1.0, 40.0, 0.0]}
         do(st)
         for w in ("axial", "radial", "tangential"):
             do({"op": "shape_chop", "target": "s0", "which": w, "args": {"count": rs.randint(2, 4)}})
@@ -503,6 +527,8 @@ def gen_history(seed: int, faults: str) -> Dict[str, Any]:
         if m.movable:
             cand.append(("move", 3))
             cand.append(("backport", 3))
+            if shape_name in m.added and m.shapes[shape_name]["points"] and not m.deleted_sub:
+                cand.append(("move_shape", 2))
             if p_fault:
                 cand.append(("crash_in_backport", 6 * p_fault))
         cand.append(("clear", 2))
@@ -537,6 +563,11 @@ def gen_history(seed: int, faults: str) -> Dict[str, Any]:
             amp = rs.pick([0.08, 0.08, 0.01, 0.002])  # adjustments are not always large
             to = [round(base_pos[k] + rs.uniform(-amp, amp), 6) for k in range(3)]
             do({"op": "move_corner", "target": n, "corner": c, "to": to})
+        elif kind == "move_shape":
+            # the vertex at the entity's centre or radius point (its own geometry is derived from those)
+            which = rs.pick(["c", "c", "r"])
+            cur = m.pending.get((shape_name, which)) or m.shapes[shape_name]["points"][which]
+            do({"op": "move_shape_point", "target": shape_name, "which": which, "to": [round(cur[k] + rs.uniform(-0.06, 0.06), 6) for k in range(3)]})
         elif kind == "transient_failure":
             # shorten the edge, try to write (grading cannot realise the chop), put it back, write
             cur = m.pos[transient["block"]][transient["corner"]]
@@ -772,6 +803,17 @@ def run_history(hist: Dict[str, Any]) -> Dict[str, Any]:
                         break
                     it.mesh.blocks[bi].vertices[st["corner"]].move_to(st["to"])
                     stats["moves"] += 1
+                    prev = op
+                    continue
+                if op == "move_shape_point":
+                    at = ann["at"]
+                    vx = min(it.mesh.vertices, key=lambda v_: models.dist([float(x) for x in v_.position], at))
+                    if models.dist([float(x) for x in vx.position], at) > 1e-6:
+                        bad("vertex-missing", f"no vertex at {st['target']}'s point '{st['which']}' {at} (nearest: {list(vx.position)})", i=i)
+                        break
+                    vx.move_to(st["to"])
+                    stats["moves"] += 1
+                    stats["shape_moves"] = stats.get("shape_moves", 0) + 1
                     prev = op
                     continue
                 if op == "write":
